@@ -105,3 +105,6 @@
 ;@heap followsY LOG_preEV LOG_preOut LOG_preErr LOG_preFlag LOG_postEV LOG_postOut LOG_postErr LOG_postFlag
 (define-fun stateIsPostY ((cEV (Array Int (Array Int Val))) (cOut Int) (cErr Int) (cFlag Bool) (lEV (Array Int (Array Int (Array Int Val)))) (lOut (Array Int Int)) (lErr (Array Int Int)) (lFlag (Array Int Bool)) (k Int)) Bool (and (= cEV (select lEV k)) (= cOut (select lOut k)) (= cErr (select lErr k)) (= cFlag (select lFlag k))))
 ;@heap stateIsPostY E_Val G_io_OutN G_io_ErrN G_utils_HadRuntimeError LOG_postEV LOG_postOut LOG_postErr LOG_postFlag
+; evArg(k, j): the j-th argument handed over at invoke event k, read from the array heap as it was when the callee was entered
+(define-fun evArg ((la (Array Int Slice)) (lev (Array Int (Array Int (Array Int Val)))) (k Int) (j Int)) Val (select (select (select lev k) (s.ref (select la k))) (+ (s.off (select la k)) j)))
+;@heap evArg LOG_args LOG_preEV
